@@ -105,13 +105,43 @@ func model_CheckSignature(c *x509.Certificate, algo x509.SignatureAlgorithm, sig
 	return verifErr("x509: signature verification failed")
 }
 
-//verif:model github.com/chain4energy/c4e-chain/x/cfesignature/util.ExtractFieldFromJSON
-func model_ExtractFieldFromJSON(jsonInput string, field string) (string, error) {
-	if !verif_uf_bool("json_wellformed", jsonInput) {
-		return "", verifErr("invalid character in JSON")
+// util.ExtractFieldFromJSON runs from source; only the JSON parser below it is a model. Parsing an arbitrary document into a
+// map either fails or yields, for each key the module can ask for, an absent key, a string, a number or null — the same answer
+// every time the same document is parsed.
+var verifJSONKeys = []string{"signature", "algorithm", "certificate", "timestamp"}
+
+// verifJSONStringsOnly: harnesses whose property does not depend on the shape of the document restrict every key to a
+// (possibly empty) string, which is what an absent key reads as too.
+var verifJSONStringsOnly = false
+
+//verif:model encoding/json.Unmarshal
+func model_json_Unmarshal(data []byte, v interface{}) error {
+	doc := verif_bytes_str(data)
+	if !verif_uf_bool("json_wellformed", doc) {
+		return verifErr("invalid character in JSON")
 	}
-	// a missing or non-string field yields "" with a nil error (as the real function does)
-	return verif_uf_str("json_field", jsonInput, field), nil
+	mp, ok := v.(*map[string]interface{})
+	if !ok {
+		panic("verif: json.Unmarshal into this target type is not modelled")
+	}
+	m := map[string]interface{}{}
+	for _, f := range verifJSONKeys {
+		if verifJSONStringsOnly {
+			m[f] = verif_uf_str("json_field", doc, f)
+			continue
+		}
+		switch verif_uf_int("json_kind", doc, f) {
+		case 0: // key absent
+		case 1:
+			m[f] = verif_uf_str("json_field", doc, f)
+		case 2:
+			m[f] = float64(12345)
+		default:
+			m[f] = nil
+		}
+	}
+	*mp = m
+	return nil
 }
 
 //verif:model crypto/sha256.Sum256
